@@ -858,10 +858,11 @@ def from_shorthand(shorthand_string, slash=None):
     shorthand_string = shorthand_string.replace("maj", "M")
     shorthand_string = shorthand_string.replace("ma", "M")
 
-    # Get the note name
-    if not notes.is_valid_note(shorthand_string[0]):
+    # Get the note name. An empty string (also the empty half of 'C|' or the
+    # missing bass of 'C/') has none.
+    if not notes.is_valid_note(shorthand_string[:1]):
         raise NoteFormatError(
-            "Unrecognised note '%s' in chord '%s'" % (shorthand_string[0], shorthand_string)
+            "Unrecognised note '%s' in chord '%s'" % (shorthand_string[:1], shorthand_string)
         )
     name = shorthand_string[0]
 
